@@ -10,7 +10,10 @@ import sys
 import time
 
 from . import stage as stage_mod
-from .pool import Pool, Crash, InternalError, NPROC
+import base64
+import pickle
+
+from .pool import Pool, Crash, InternalError, LibraryRaised, NPROC
 
 VERIF = stage_mod.VERIF
 PROPS = ['C%02d' % i for i in range(1, 21)]
@@ -123,10 +126,43 @@ def confirm(ctx, v):
     p = Pool(ctx.stage, impl, n=1, hashseed=v.get('hashseed', '0'),
              extra_env=env, capture_stderr=True)
     try:
-        r = p.call(ctx.mod, 'replay', v['case'])
+        r = _replay_call(p, ctx.mod, v['case'])
     finally:
         p.close()
     return r
+
+
+def _replay_call(p, mod, case):
+    """Replay one case in pool *p*.  A case {'raw_call': ...} re-issues the
+    recorded worker call and holds iff the library raises again."""
+    if isinstance(case, dict) and 'raw_call' in case:
+        rc = case['raw_call']
+        arg = pickle.loads(base64.b64decode(rc['arg_pickle_b64']))
+        try:
+            p.call(mod, rc['fn'], arg)
+        except LibraryRaised as e:
+            return dict(library_raised=e.typ, traceback_tail=e.tb[-1500:])
+        return None
+    return p.call(mod, 'replay', case)
+
+
+def library_raised(ctx, e):
+    """Turn an exception that escaped from the staged library into a violation
+    (confirmed from a fresh process by finish(), like every other one)."""
+    impl = 'py' if e.env.get('PURE_PYTHON') == '1' else 'c'
+    extra = {k: v for k, v in e.env.items() if k.startswith('ZOPE_INTERFACE_')}
+    ctx.violation(dict(
+        impl=impl, env=extra or None, hashseed=e.env.get('PYTHONHASHSEED', '0'),
+        sig='%s:library-raised:%s' % (ctx.pid, e.typ),
+        case=dict(raw_call=dict(
+            fn=e.fn, arg_pickle_b64=base64.b64encode(pickle.dumps(e.arg, protocol=4)).decode())),
+        detail=dict(what='an exception escaped from zope.interface while the check was '
+                         'exploring; the unchanged tree never raises here',
+                    worker_function=e.fn, traceback_tail=e.tb[-1800:])))
+    ctx.cap('exploration aborted at the first unexpected exception from the library')
+    return finish(ctx, 'model_checking',
+                  'aborted: the library raised %s inside %s.%s' % (e.typ, ctx.mod, e.fn),
+                  'n/a (aborted run)')
 
 
 def finish(ctx, level, explanation, rule, trusted=None):
@@ -209,7 +245,7 @@ def do_replay(pid, path, stage):
     p = Pool(stage, rep.get('impl', 'c'), n=1, hashseed=rep.get('hashseed', '0'),
              extra_env=rep.get('env') or None, capture_stderr=True)
     try:
-        r = p.call(pid.lower(), 'replay', rep['case'])
+        r = _replay_call(p, pid.lower(), rep['case'])
     finally:
         p.close()
     if isinstance(r, Crash):
@@ -260,6 +296,12 @@ def main(argv=None):
     mod = importlib.import_module('vlib.props.' + pid.lower())
     try:
         return mod.run(ctx)
+    except LibraryRaised as e:
+        try:
+            return library_raised(ctx, e)
+        except InternalError as e2:
+            print('INTERNAL ERROR in checker for %s: %s' % (pid, e2), file=sys.stderr)
+            return 2
     except InternalError as e:
         print('INTERNAL ERROR in checker for %s: %s' % (pid, e), file=sys.stderr)
         return 2
